@@ -118,6 +118,26 @@ static void run_%(ty)s(size_t n) {
             ok = ok && got == n && tail;
         }
         printf("CASE buf_iter %(ty)s n=%%zu cap=-1 %%s offered=%%zu stored=%%zu\\n", n, ok ? "ok" : "bad", got, n);
+        {
+            /* the same items behind a pointer of another static type (a byte payload / malloc block): the element type is the
+               macro's type argument, not the type of the expression passed as the buffer */
+            unsigned char *raw = (unsigned char *)src;
+            BUF_ITER(%(ty)s, it2, raw, n);
+            got = 0; ok = 1;
+            while (got <= n + 2 && it2.func(it2.iter, &outv) == 0) { if (got < n) ok = ok && eq_%(ty)s(outv, mk_%(ty)s(got)); got++; }
+            ok = ok && got == n;
+            printf("CASE buf_iter_bytes %(ty)s n=%%zu cap=-1 %%s offered=%%zu stored=%%zu\\n", n, ok ? "ok" : "bad", got, n);
+        }
+        {
+            /* a fixed array through the _ARR form (length taken from the array) */
+            %(ty)s arr[5];
+            for (i = 0; i < 5; i++) arr[i] = mk_%(ty)s(i);
+            BUF_ITER_ARR(%(ty)s, it3, arr);
+            got = 0; ok = 1;
+            while (got <= 7 && it3.func(it3.iter, &outv) == 0) { if (got < 5) ok = ok && eq_%(ty)s(outv, mk_%(ty)s(got)); got++; }
+            ok = ok && got == 5;
+            if (n == 0) printf("CASE buf_iter_arr %(ty)s n=5 cap=-1 %%s offered=%%zu stored=%%zu\\n", ok ? "ok" : "bad", got, (size_t)5);
+        }
         free(src);
     }
 }
